@@ -74,6 +74,10 @@ def make_case(rng, kind, t, start=None, exhaustive=None):
          "graph": rng.choice([None, None, "graph"]), "gname": rng.choice([None, None, "G1"]),
          "defaults": rng.random() < 0.3, "tofile": rng.random() < 0.1, "cls": rng.choice(["plain", "plain", "eq", "light", "falsy"]),
          "partial": rng.choice([0, 0, 0, 1, 2, 3])}
+    if c["iterations"] == 2 and rng.random() < 0.5:
+        # the exporter's maxlevel attribute is changed between the iterations: the admitted set grows or shrinks,
+        # identifiers handed out earlier stay valid and distinct
+        c["maxlevel_seq"] = [rng.choice([m, 1, 2, 2, 2, 3]), rng.choice([None, None, None, 1, 3, 5])]
     return c
 
 
